@@ -35,7 +35,7 @@ if exe is None:
 work = ck.mkscratch()
 res = os.path.join(work, "out.json")
 args = [exe, "-work", work, "-out", res, "-seed", str(ck.seed)]
-args += ["-mods", "0", "-flags", "0"] if ck.thorough() else ["-mods", "4", "-flags", "3"]
+args += ["-mods", "0", "-flags", "0"] if ck.thorough() else ["-mods", "4", "-flags", "6"]
 rc, out = sh(args, timeout=3000)
 if rc != 0:
     ck.violation("harness-run", "harness run failed: " + out[-500:], {"log": out[-3000:]}, no_input=True)
@@ -97,6 +97,46 @@ else:
         # implementation satisfies the property on every cell, but the transcription disagrees with it
         ck.violation("model-mismatch", "model and implementation disagree although the property holds on all explored cells: " + M[:300],
                      {"mismatches": M[:3000]}, no_input=True)
+# 3. CLI tie: the real staticcheck binary with real version-restricted checks (SA1019, SA1015)
+clicells = []
+sc, out = ck.build_repo_cmd("./cmd/staticcheck", "staticcheck")
+if sc is None:
+    ck.violation("staticcheck-build", "cmd/staticcheck does not build with -tags verif", {"log": out[-3000:]}, no_input=True)
+else:
+    res2 = os.path.join(work, "cli.json")
+    args = [exe, "-cli", sc, "-work", work, "-out", res2, "-seed", str(ck.seed)]
+    args += ["-mods", "0", "-flags", "3"] if ck.thorough() else ["-mods", "2", "-flags", "1"]
+    rc, out = sh(args, timeout=3000)
+    if rc != 0:
+        ck.violation("cli-run", "CLI tie failed to run: " + out[-500:], {"log": out[-3000:]}, no_input=True)
+    else:
+        cli = json.load(open(res2))
+        clicells = cli["Cells"]
+        since = coq_list(["%d%%Z" % a["Since"] for a in cli["APIs"]])
+        cv = coq_list(["mkCli %d%%Z %s %s %s %s %d%%nat" % (c["Module"], optz(c["Flag"]), optz(c["Tag"]),
+                       coq_list([coq_bool(b) for b in c["SA1019"]]), coq_bool(c["SA1015"]), len(c["Other"] or [])) for c in clicells])
+        text2 = """From Coq Require Import List ZArith. Import ListNotations.
+Require Import Verif.Model.C20_Types Verif.Model.C20 Verif.Model.C20_Check.
+Definition CV := Eval vm_compute in cli_violations %s %s.
+Print CV.
+""" % (since, cv)
+        rc, out = ck.coq_cases("cli", text2)
+        CV = ck.printed_value(out, "CV")
+        if rc != 0 or CV is None:
+            ck.violation("cli-eval", "CLI cases file did not evaluate", {"log": out[-3000:]}, no_input=True)
+        elif CV != "[]":
+            for m in list(re.finditer(r"\((\d+)%?n?a?t?,\s*\[([^\]]*)\]\)", CV))[:10]:
+                c = clicells[int(m.group(1))]
+                first = re.match(r"\s*\((\d+)%?n?a?t?,\s*(\w+)\)", m.group(2))
+                idx = int(first.group(1)) if first else -1
+                which = cli["APIs"][idx]["Name"] + " (SA1019, deprecated since go1.%d)" % cli["APIs"][idx]["Since"] if 0 <= idx < len(cli["APIs"]) else \
+                        ("time.Tick (SA1015, stdlib < go1.23)" if idx == 100 else "unexpected problem")
+                cellsrc = {"module": "go 1.%d" % c["Module"], "flag": ("-go 1.%d" % c["Flag"]) if c["Flag"] else "-go module",
+                           "tag": ("//go:build go1.%d" % c["Tag"]) if c["Tag"] else "none"}
+                ck.violation("cli:%s" % which.split(" ")[0], "staticcheck CLI: %s wrongly %s for %s" % (
+                    which, "reported" if (first and first.group(2) == "true") else "suppressed", cellsrc),
+                    {"cell": cellsrc, "observed": c, "rerun": "staticcheck -checks SA1019,SA1015 -f json %s ./... in a module with that go directive and file tag" % cellsrc["flag"]})
+
 if ck.thorough():
     okc, outc = ck.coqchk(["Verif.Props.C20"])
     if not okc:
@@ -109,10 +149,10 @@ nontriv = len({(c["Module"], c["Flag"], c["Tag"]) for c in cells if c["Tag"] or 
 ck.assume += ["go/types Info.FileVersions = max(tag, go1.21) for tagged files (external; compared with the real type checker on every cell)",
               "go/version.Compare on well-formed go1.N strings is the lexicographic order on (major, minor)"]
 ck.finish({
-    "evaluations": len(cells) * len(probes),
+    "evaluations": len(cells) * len(probes) + 7 * len(clicells),
     "distinct_nontrivial": nontriv,
     "rule": "cell = (module go directive, -go flag, //go:build tag) run through the real loader+runner with a probe analyzer calling report.Report with each setter list; non-trivial = tag or flag present (effective version differs from the plain module version); every cell is compared on %d probes (4 bound kinds x 11 thresholds + 40 two-setter lists)" % len(probes),
     "samples": [{"cell": cells[i], "probes": probes[:2]} for i in range(0, len(cells), max(1, len(cells) // 3))][:3],
-    "cells": len(cells), "probes": len(probes),
+    "cells": len(cells), "probes": len(probes), "cli_cells": len(clicells),
     "traces_validated_against_impl": len(cells),
 })
